@@ -522,7 +522,8 @@ func c18GenKids(r *core.Rng, kids []*snode, fill int) []*dnode {
 				d := &dnode{name: k.name}
 				// entries in an order that is not the sorted order of their keys ("k10" sorts before "k2")
 				// ("k": an entry whose key value is the name of the key leaf itself)
-				keyPool := []string{"k3", "k10", "k", "k1", "k2", "k05", "K4"}
+				// (and one whose key value is the empty string: a value of type string like any other)
+				keyPool := []string{"k3", "k10", "k", "k1", "", "k2", "k05", "K4"}
 				off := r.Intn(len(keyPool))
 				twoKeys := false
 				for _, kk := range k.kids {
